@@ -73,7 +73,23 @@ def run(v, tier, rng):
         a, b = twins(rng, k)
         twin_idx.append((len(progs), len(progs) + 1))
         progs += [a, b]
-    npool = len(progs)
+    # a program that DEFINES some names, and programs that only REFER to those names (undefined there): whatever a
+    # referrer assembles to (diagnostic, failure, undefined external in the object) must not depend on an earlier definer
+    ref_groups = []
+    for k in range(4 if tier == "quick" else 16):
+        n1, n2, n3 = "dr%d_a" % k, "dr%d_b" % k, "_dr%d_ext" % k
+        mode = rng.choice([16, 32])
+        hd = [("config", "BITS", ("num", 32))] if mode == 32 else []
+        acc = "AX" if mode == 16 else "EAX"
+        definer = hd + [("mn", "ORG", [A.hexn(0x7c00)]), ("label", n1), ("mn", "MOV", [G.reg(acc), A.num(1)]), ("label", n2), ("mn", "DB", [A.num(1), A.num(2)]), ("label", n3), ("op", "RET")]
+        referrers = [hd + [("mn", "MOV", [G.reg(acc), A.num(1)]), ("mn", rng.choice(["JMP", "CALL", "JE"]), [A.ident(n1)]), ("op", "HLT")],
+                     hd + [("mn", "DW", [A.ident(n2)]), ("mn", "MOV", [G.reg(acc), A.ident(n2)]), ("mn", "DB", [A.num(7)])],
+                     [("config", "FORMAT", ("str", b"WCOFF")), ("config", "BITS", ("num", 32)), ("config", "FILE", ("str", b"r.nas")), ("global", [n3, "_dr%d_here" % k]),
+                      ("config", "SECTION", ("id", ".text")), ("label", "_dr%d_here" % k), ("mn", "MOV", [G.reg("EAX"), A.num(1)]), ("op", "RET")]]
+        base = len(progs)
+        progs += [definer] + referrers
+        ref_groups.append((base, [base + 1 + j for j in range(len(referrers))]))
+    npool_hist = npool = len(progs) - sum(1 + len(rs) for _, rs in ref_groups)
     texts = [A.p_program(p) for p in progs]
     # reference: one fresh process per program (the CLI binary)
     work = os.path.join(lib.BUILD, "c10-%d" % os.getpid())
@@ -96,7 +112,7 @@ def run(v, tier, rng):
     hist = []
     for h in range(nh):
         L = rng.choice([2, 5, 12, 30] if tier == "quick" else [5, 20, 50, 200])
-        seq = [rng.randrange(npool) for _ in range(L)]
+        seq = [rng.randrange(npool_hist) for _ in range(L)]
         if rng.random() < 0.3:
             seq = seq + seq[::-1]
         c = {"id": "h%d" % h, "srcs": [texts[i] for i in seq]}
@@ -109,13 +125,18 @@ def run(v, tier, rng):
         for o, seq in enumerate(([ia, ib, ia, ib], [ib, ia, ib, ia])):
             cases.append({"id": "tw%d_%d" % (k, o), "srcs": [texts[i] for i in seq]})
             hist.append(seq)
+    for k, (d, rs) in enumerate(ref_groups):
+        for j, r in enumerate(rs):
+            for o, seq in enumerate(([d, r], [r, d, r], [d, d, r, r])):
+                cases.append({"id": "dr%d_%d_%d" % (k, j, o), "srcs": [texts[i] for i in seq]})
+                hist.append(seq)
     # all orders of a 4-program pool
     import itertools
     for k, perm in enumerate(itertools.permutations(range(4))):
         cases.append({"id": "perm%d" % k, "srcs": [texts[i] for i in perm] * 2})
         hist.append(list(perm) * 2)
     # the same already-parsed tree assembled three times
-    for i in range(npool):
+    for i in range(len(progs)):
         cases.append({"id": "r%d" % i, "srcs": [texts[i]] * 3, "reuse": True})
         hist.append([i, i, i])
     res = lib.run_cases(cases, "c10")
@@ -130,6 +151,10 @@ def run(v, tier, rng):
         for k, (i, call) in enumerate(zip(seq, r["calls"])):
             calls += 1
             if ref[i] is None:
+                if not call["out"].startswith("!"):
+                    v.violation("call %d of a history assembles a source that a fresh process refuses" % k,
+                                {"source": texts[i], "history_indices": seq[:k + 1], "earlier_sources": [texts[j] for j in seq[:k]][-3:], "history_hex": call["out"][:400]})
+                    break
                 continue
             if call["out"] != ref[i]:
                 v.violation("call %d of a history differs from the fresh-process output of the same source%s" % (k, " (re-assembling the same parsed program)" if c.get("reuse") else ""),
